@@ -335,6 +335,12 @@ CORPUS_PAR = [
      "calls": [(0, [0, 1]), (0, [1, 2, 2, 0]), (0, [])]},
     {"specs": [{"kind": "multi", "mins": [True, False], "rows": [[1, 2], [3, 4]]}], "keys": [0, 1], "pre": [(0, 1)],
      "calls": [(0, [1]), (0, [0, 1, 0])]},
+    # a multi-objective problem declared with ONE bool for all objectives (it learns their number from its first evaluation --
+    # which, under the parallel evaluator, happens in a worker's copy), nothing evaluated beforehand
+    {"specs": [{"kind": "multibool", "min": True, "rows": [[1, 2], [3, 4], [0, 5]]}], "keys": [0, 1, 2, 1], "pre": [],
+     "calls": [(0, [0, 1]), (0, [2, 3, 0])]},
+    {"specs": [{"kind": "multibool", "min": False, "rows": [[2], [1]]}, {"kind": "single", "min": True, "rows": [[4], [6]]}], "keys": [0, 1, 1], "pre": [],
+     "calls": [(1, [0, 1]), (0, [0, 1, 2]), (0, [2, 0])]},
 ]
 
 
